@@ -178,6 +178,8 @@ fn check_expr(rep: &mut Report, name: &str, e: &Expr, facts: &Value, operands: &
                     let none_rule_applies = if lazy { *operands[0] == Value::None || (matches!(name, "eq" | "neq") && any_none) } else { any_none };
                     if none_rule_applies { tags.push("C04"); }
                     if !any_none && (expected == Err(RErr::InvalidType) || obs == Err(RErr::InvalidType)) { tags.push("C03"); }
+                    // "cross-type equality is false" (C03): == / != on two non-None operands of different kinds
+                    if matches!(name, "eq" | "neq") && !any_none && operands.len() == 2 && std::mem::discriminant(operands[0]) != std::mem::discriminant(operands[1]) && !tags.contains(&"C03") { tags.push("C03"); }
                 }
                 if matches!(expected, Err(RErr::OutOfBounds) | Err(RErr::InvalidCast) | Err(RErr::DivisionByZero)) && obs.is_ok() { tags.push("C01"); }
                 if name == "index" || name == "ref" { tags = vec!["C10"]; if any_none { tags.push("C04"); } }
@@ -216,6 +218,19 @@ fn family_ops() {
             check_expr(&mut rep, "index", &e, &facts, &[v]);
             let e2 = Expr::index(Expr::index(Expr::value(v.clone()), Index::Vec(0)), idx);
             check_expr(&mut rep, "index", &e2, &facts, &[v]);
+        }
+    }
+    // a numeric step on a map is a type error even when the map has a key spelled like the number (and a name step on a list likewise)
+    {
+        let mut dm = BTreeMap::new();
+        dm.insert("0".to_string(), Value::Int(10)); dm.insert("1".to_string(), Value::Int(11)); dm.insert("2024".to_string(), Value::Int(12)); dm.insert("a".to_string(), Value::Int(13));
+        let dmv = Value::Map(dm);
+        let lv = Value::Vec(vec![Value::Int(20), Value::Int(21)]);
+        for idx in [Index::Vec(0), Index::Vec(1), Index::Vec(2024), Index::Vec(7), Index::Map("0".into()), Index::Map("1".into()), Index::Map("2024".into()), Index::Map("len".into())] {
+            check_expr(&mut rep, "index", &Expr::index(Expr::value(dmv.clone()), idx.clone()), &facts, &[&dmv]);
+            check_expr(&mut rep, "index", &Expr::index(Expr::value(lv.clone()), idx.clone()), &facts, &[&lv]);
+            check_expr(&mut rep, "ref", &Expr::index(Expr::reff("facts"), idx.clone()), &dmv, &[]);
+            check_expr(&mut rep, "ref", &Expr::index(Expr::reff("facts"), idx), &lv, &[]);
         }
     }
     // references: every input shape x names (near-miss keys)
@@ -283,6 +298,10 @@ impl UserFunction for TestFn {
             prior = l.iter().filter(|c| c.name == self.model.name).count();
             l.push(Call { name: self.model.name.to_string(), arg: format!("{params:?}") });
         }
+        if self.model.name == "boom_reval" {
+            // the failure is a `reval::Error` wrapped by anyhow (what `let n: i64 = params.try_into()?` produces in user code)
+            return Err(anyhow::Error::new(reval::Error::InvalidType));
+        }
         (self.model.behaviour)(&params, prior).map_err(|e| anyhow::anyhow!(e))
     }
     fn name(&self) -> &'static str { self.model.name }
@@ -294,6 +313,7 @@ fn b_count(_v: &Value, n: usize) -> Result<Value, String> { Ok(Value::Int(n as i
 fn b_fail_on_neg(v: &Value, _n: usize) -> Result<Value, String> {
     match v { Value::Int(i) if *i < 0 => Err(format!("negative {i}")), other => Ok(other.clone()) }
 }
+fn b_fail_reval(_v: &Value, _n: usize) -> Result<Value, String> { Err(reval::Error::InvalidType.to_string()) }
 fn b_fail_first(v: &Value, n: usize) -> Result<Value, String> { if n == 0 { Err("first call fails".into()) } else { Ok(v.clone()) } }
 
 fn fn_models() -> Vec<FnModel> {
@@ -305,6 +325,7 @@ fn fn_models() -> Vec<FnModel> {
         FnModel { name: "get", cacheable: true, behaviour: b_fail_on_neg },
         FnModel { name: "get_more", cacheable: true, behaviour: b_identity },
         FnModel { name: "flaky", cacheable: true, behaviour: b_fail_first },
+        FnModel { name: "boom_reval", cacheable: true, behaviour: b_fail_reval },
     ]
 }
 
@@ -437,7 +458,9 @@ fn family_lazy() {
     let facts = Value::None;
     let bad = || Expr::div(v(1), v(0));
     let conds: Vec<Expr> = vec![call("probe", v(true)), call("probe", v(false)), call("probe", v(Value::None)), call("probe", v(1)), bad()];
-    let leaves: Vec<Expr> = vec![call("probe", v(7)), call("probe", v(Value::None)), bad(), call("probe", v(true)), call("probe", v(false))];
+    // leaves: observable calls, an error, and plain literals (an operator must not look at what its other operand is *written* as)
+    let leaves: Vec<Expr> = vec![call("probe", v(7)), call("probe", v(Value::None)), bad(), call("probe", v(true)), call("probe", v(false)),
+                                 v(true), v(false), v(Value::None), v(1)];
     let tags = ["C05", "C02"];
     for c in &conds {
         for l in &leaves {
@@ -492,6 +515,7 @@ fn family_ruleset() {
         Expr::iif(Expr::none(call("get", v(-1))), v(0), v(1)),
         // None as an argument and as a (cached) result; a cacheable identity
         call("id", v(Value::None)), call("id", v(1)), call("count", v(Value::None)), call("count_nc", v(Value::None)), call("get_more", v(Value::None)),
+        call("boom_reval", v(1)), Expr::add(call("boom_reval", v(1)), v(1)),
     ];
     // all pairs and a selection of triples
     for (i, a) in blocks.iter().enumerate() {
@@ -1015,6 +1039,16 @@ fn family_parse(deep: bool) {
     for c in 0u8..128 {
         try_parse(&mut rep, &format!("\"\\{}\"", c as char));
         try_parse(&mut rep, &format!("\"a\\{}", c as char));
+    }
+    // unknown / truncated escapes next to multi-byte characters (error paths that quote the escape by position)
+    for pre in ["", "é", "éé", "Zoë", "日本", "𝔘", "a\u{301}"] {
+        for esc in ["\\q", "\\!", "\\é", "\\日", "\\𝔘", "\\ ", "\\u{zz}", "\\u{110000}", "\\u{D800}", "\\u", "\\"] {
+            for post in ["", "é", "x", "日"] {
+                try_parse(&mut rep, &format!("\"{pre}{esc}{post}\""));
+                try_parse(&mut rep, &format!("name == \"{pre}{esc}{post}\""));
+                try_parse(&mut rep, &format!("// r\n@k: \"{pre}{esc}{post}\"; x"));
+            }
+        }
     }
     for u in ["\\u{41}", "\\u{110000}", "\\u{D800}", "\\u{}", "\\u{zz}", "\\u{41", "\\u41}", "\\u", "\\u{FFFFFFFFFF}", "\\", "\\u{0041}\\u{}x"] {
         try_parse(&mut rep, &format!("\"{u}\""));
